@@ -198,7 +198,7 @@ class Inliner:
         return fn, is_method
 
     # ---- binding
-    def bind(self, fn: ast.FunctionDef, is_method: bool, call: ast.Call, caller_names: set[str]):
+    def bind(self, fn: ast.FunctionDef, is_method: bool, call: ast.Call, caller_names: set[str], result_name: str | None = None):
         params = [a.arg for a in fn.args.args]
         defaults = dict(zip(params[len(params) - len(fn.args.defaults) :], fn.args.defaults))
         for a, d in zip(fn.args.kwonlyargs, fn.args.kw_defaults):
@@ -260,8 +260,19 @@ class Inliner:
                 if newp != p:
                     rename[p] = newp
                 pre.append(ast.Assign(targets=[ast.Name(id=newp, ctx=ast.Store())], value=a, lineno=call.lineno, col_offset=call.col_offset))
+        # return-variable coalescing: `x = helper(...)` where the helper always returns its local `r`: let `r` be `x`
+        coalesced = None
+        if result_name is not None and not any(isinstance(n_, ast.Name) and n_.id == result_name for a_ in list(call.args) + [k.value for k in call.keywords] for n_ in ast.walk(a_)):
+            rets = [n_ for n_ in ast.walk(fn) if isinstance(n_, ast.Return)]
+            rn = {n_.value.id for n_ in rets if isinstance(n_.value, ast.Name)}
+            if rets and len(rn) == 1 and all(isinstance(n_.value, ast.Name) for n_ in rets):
+                r_ = next(iter(rn))
+                if r_ in assigned and r_ not in params and result_name not in (assigned - {r_}) and result_name not in params:
+                    coalesced = r_
+                    if r_ != result_name:
+                        rename[r_] = result_name
         for n in assigned:
-            if n in params:
+            if n in params or n == coalesced:
                 continue
             if n in caller_names:
                 rename[n] = n + tag
@@ -289,7 +300,12 @@ class Inliner:
         if r is None:
             return None
         fn, is_method = r
-        b = self.bind(fn, is_method, call, caller_names)
+        result_name = None
+        if ctx in ("assign", "annassign"):
+            t_ = st.targets[0] if isinstance(st, ast.Assign) else st.target
+            if isinstance(t_, ast.Name):
+                result_name = t_.id
+        b = self.bind(fn, is_method, call, caller_names, result_name)
         if b is None:
             return None
         pre, body = b
@@ -313,6 +329,8 @@ class Inliner:
 
                 def make(v, at, target=target):
                     val = v if v is not None else ast.Constant(value=None)
+                    if isinstance(val, ast.Name) and isinstance(target, ast.Name) and val.id == target.id:
+                        return []  # coalesced: the helper's result variable already is the target
                     return [ast.copy_location(ast.Assign(targets=[copy.deepcopy(target)], value=val), at)]
             new = _convert_returns(body, make)
             if new is None:
